@@ -354,11 +354,11 @@ structure Upd where
 def updatePfx (st : St) (u : Upd) (raw : List Nat) : Bool × St × Upd :=
   let r := pfxRecOf raw
   let maxBits := if r.v6 then 128 else 32
-  if flagsOf raw ≠ 0 ∧ flagsOf raw ≠ 1 then
-    let (_, st) := sendErrorFromHost st raw raw.length 0 txtBadFlagsPfx
-    (false, st, u)
-  else if r.len > maxBits ∨ r.maxLen > maxBits then
+  if r.len > maxBits ∨ r.maxLen > maxBits then
     let (_, st) := sendErrorFromHost st raw raw.length 0 txtBadLenPfx
+    (false, st, u)
+  else if flagsOf raw ≠ 0 ∧ flagsOf raw ≠ 1 then
+    let (_, st) := sendErrorFromHost st raw raw.length 0 txtBadFlagsPfx
     (false, st, u)
   else
     let (pt', rc) := if flagsOf raw = 1 then ptAdd u.pt r else ptRemove u.pt r
@@ -587,9 +587,21 @@ def trOpen (st : St) : Int × St :=
   let (rc, q) := match st.openQ with | [] => ((0 : Int), []) | x :: q => (x, q)
   let st := { st with openQ := q }
   let st := (dumpLines "T" st).foldl (fun st l => st.emit l) st
-  (rc, st.emit s!"O {rc}")
+  (rc, st.emit s!"O {rc} {st.now}")
 
 def trClose (st : St) : St := st.emit "C"
+
+/-- number of 8-byte units on the tape: a bound on the number of PDUs a run can still receive -/
+def tapeFuel (st : St) : Nat :=
+  st.tape.foldl (fun n ev => match ev with | .rx b => n + b.length / 8 + 1 | _ => n + 1) 10
+
+/-- route-origin validation over the abstract prefix table (RFC 6811; by C01/C02 this is what
+    pfx_table_validate answers on the concrete table) -/
+def validate (st : St) (v6 : Bool) (asn : Nat) (q : Nat) (n : Nat) : String :=
+  let w := if v6 then 128 else 32
+  let cov := st.pt.filter fun r => r.v6 == v6 && decide (r.len ≤ n) && prefixEq w r.addr q r.len
+  if cov.any (fun r => r.asn != 0 && r.asn == asn && decide (n ≤ r.maxLen)) then "VALID"
+  else if cov.isEmpty then "NOTFOUND" else "INVALID"
 def doSleep (st : St) (n : Nat) : St := ({ st with now := st.now + n }).emit s!"Z {n}"
 
 /-- one iteration of the `while (1)` loop of `rtr_fsm_start`; `none` = the thread exits -/
